@@ -57,6 +57,25 @@ Theorem compile_program_correct_F4_partial : forall fuel p args,
 Proof. exact (fun fuel p args H => CompileCorrect4Prog.compile_program_correct_P p args 5 H fuel). Qed.
 Print Assumptions compile_program_correct_F4_partial.
 
+(* the same with function objects used BY COPY: at level 6 the name of a top-level function, and the name of the
+   running named nested function, may be used as a value (GLOBAL_VEC 0 / COPYGLOB; ID_FUNC_ADDR f make a new
+   function object: the value relation is "the image of the cell, or a copy of the function the cell holds",
+   CompileCorrect4Rel.vrel) — stored, passed, returned, called.  Level 6 has no assignment: Src/Eval.v is untyped,
+   an assignment through an alias of a function's cell (let g = f; g = 5) goes on in the evaluator and is stuck
+   on the machine, so with copies in the fragment some static restriction on assignment is needed; level 5 is
+   the fragment of compile_program_correct_F4_partial (assignments, no copies) *)
+Theorem compile_program_correct_F4 : forall fuel p args,
+  prog_in_P 5 p || prog_in_P 6 p = true ->
+  match run_program fuel p args with
+  | OResult v printed =>
+      CompileCorrect4Shape.is_intv v = true ->
+      exists k z, run_vm p k args = VRet z printed /\ CompileCorrect4Rel.val_rel v z
+  | OUnhandled ex printed => exists k, run_vm p k args = VExc ex printed
+  | OFuel | OStuck => True
+  end.
+Proof. exact (fun fuel p args H => CompileCorrect4Prog.compile_program_correct_P56 p args H fuel). Qed.
+Print Assumptions compile_program_correct_F4.
+
 (* the evaluator-only fact behind side condition (c): an int_shaped expression yields an int / bool cell *)
 Theorem int_shaped_cell : forall genv k e env st c st' v, int_shaped e = true ->
   eval genv k env st e = (ROk c, st') -> get_cell st' c = Some v -> CompileCorrect4Shape.is_intv v = true.
@@ -305,6 +324,33 @@ Proof. vm_compute. reflexivity. Qed.
 (* on 7: f(2) = 14 / 2 = 7; f(0) faults inside the closure, its clause prints the captured a and gives 107 *)
 Example ex7_runs :
   run_vm ex7 3000 [7] = VRet 114 [7] /\ run_program 300 ex7 [7] = OResult (CInt 114) [7].
+Proof. vm_compute. split; reflexivity. Qed.
+
+(* function objects by copy (level 6):
+     func inc(x : int) -> int { x + 1 }
+     func twice(f(int) -> int, x : int) -> int { f(f(x)) }
+     func main(x : int) -> int
+     { let g = inc; func cnt(n : int) -> int { let me = cnt; (n <= 0) ? 0 : me(n - 1) + 1 };
+       twice(g, x) + twice(inc, cnt(3)) }
+   the real VM returns 12 on 5 *)
+Definition inc9 : fdef := FDef 1%N [(2%N, false, TInt)] TInt [IExpr (EBin Add (EVar 2%N) (EInt 1))] [] None.
+Definition twice9 : fdef := FDef 3%N [(4%N, false, TFun [TInt] TInt); (5%N, false, TInt)] TInt
+  [IExpr (ECall (EVar 4%N) [ECall (EVar 4%N) [EVar 5%N]])] [] None.
+Definition cnt9 : fdef := FDef 8%N [(9%N, false, TInt)] TInt
+  [ILet 10%N (EVar 8%N);
+   IExpr (ECond (EBin Le (EVar 9%N) (EInt 0)) (EInt 0)
+                (EBin Add (ECall (EVar 10%N) [EBin Sub (EVar 9%N) (EInt 1)]) (EInt 1)))] [] None.
+Definition main9 : fdef := FDef 0%N [(6%N, false, TInt)] TInt
+  [ILet 7%N (EVar 1%N); IFunc cnt9;
+   IExpr (EBin Add (ECall (EVar 3%N) [EVar 7%N; EVar 6%N])
+                   (ECall (EVar 3%N) [EVar 1%N; ECall (EVar 8%N) [EInt 3]]))] [] None.
+Definition ex9 : program := {| p_recs := []; p_funcs := [inc9; twice9; main9]; p_main := 0%N |}.
+
+Example ex9_in_P : prog_in_P 6 ex9 = true /\ prog_in_P 5 ex9 = false /\ prog_in_F4 ex9 = true.
+Proof. vm_compute. repeat split; reflexivity. Qed.
+
+Example ex9_runs :
+  run_vm ex9 3000 [5] = VRet 12 [] /\ run_program 300 ex9 [5] = OResult (CInt 12) [].
 Proof. vm_compute. split; reflexivity. Qed.
 
 (* a nested function with a self call in TAIL position that assigns a captured var:
